@@ -18,6 +18,7 @@ from .parameters import (
 )
 from .util import (
     DEFAULT_JITTER,
+    GaussianProcessType,
     local_dimensionality,
     object_str,
     object_html,
@@ -400,6 +401,10 @@ class DimensionalityEstimator(BaseEstimator):
         x = self.x
         landmarks = self.landmarks
         pre_transformation = self.pre_transformation[0, :]
+        if self.gp_type == GaussianProcessType.SPARSE_NYSTROEM:
+            # The latent vector lives in the rank-reduced eigenbasis, not in the
+            # Cholesky basis of the landmarks, even if their sizes coincide.
+            pre_transformation = None
         pre_transformation_std = self.pre_transformation_std
         if pre_transformation_std is not None:
             pre_transformation_std = pre_transformation_std[0, :]
@@ -432,6 +437,10 @@ class DimensionalityEstimator(BaseEstimator):
         x = self.x
         landmarks = self.landmarks
         pre_transformation = self.pre_transformation[1, :]
+        if self.gp_type == GaussianProcessType.SPARSE_NYSTROEM:
+            # The latent vector lives in the rank-reduced eigenbasis, not in the
+            # Cholesky basis of the landmarks, even if their sizes coincide.
+            pre_transformation = None
         pre_transformation_std = self.pre_transformation_std
         if pre_transformation_std is not None:
             pre_transformation_std = pre_transformation_std[1, :]
